@@ -204,14 +204,14 @@ theorem run_daynum_time_none (q : Bool) (m : Nat) (hm : m ≤ 1440) (r : List Ch
   have hmin := run_minute true (m % 60) (by omega) r
   unfold Print.extTime
   rw [pad2_lt100 (m / 60) (by omega)]
-  simp only [List.append_assoc, List.cons_append, List.nil_append]
+  simp only [List.cons_append, List.nil_append]
   have h2 := dc_digit (m / 60 % 10) (by omega)
   have d0 : dc 0 = '0' := by decide
   by_cases h10 : m / 60 < 10
   · have e1 : m / 60 / 10 = 0 := by omega
     have e2 : m / 60 % 10 = m / 60 := by omega
     by_cases h0 : m / 60 = 0
-    · simp [g_daynum, g_daynum_digits, peg, e1, h0, d0]
+    · simp [g_daynum, g_daynum_digits, peg, h0, d0]
     · have h19 := dc_19 (m / 60) h10 (by omega)
       simp [g_daynum, g_daynum_digits, peg, e1, e2, d0, h19, hmin, hcolon]
   · have h1 := dc_12 (m / 60 / 10) (by omega) (by omega)
@@ -308,7 +308,7 @@ theorem run_day_offset (off : Int) (h0 : off ≠ 0) (rest : List Char) (hr : ∀
   · simp only [hp, if_false, List.cons_append, List.nil_append, List.append_assoc] at hnum ⊢
     simp [g_day_offset, g_space, peg, run_pm_minus, hnum, hs, pnTree]
 
-theorem build_day_offset (off : Int) (h0 : off ≠ 0) (hb : off.natAbs < i64Bound) :
+theorem build_day_offset (off : Int) (hb : off.natAbs < i64Bound) :
     buildDayOffset (dayOffTree off) = .ok off := by
   have hbp := build_pn off.natAbs (by unfold u64Bound; unfold i64Bound at hb; omega)
   have hnb : ¬ i64Bound ≤ off.natAbs := by omega
@@ -334,5 +334,370 @@ theorem run_day_offset_none (q : Bool) (inp : List Char) (h : NoDayOffset inp) :
         · intro r' e; exact (h '-' r' (by rw [e])).2 rfl
       simp [g_day_offset, g_space, peg, hpm]
     · simp [g_day_offset, g_space, peg, Ne.symm hc]
+
+
+/-! ### `date_from = { (year ~ " "?)? ~ month ~ " "? ~ daynum | (year ~ " "?)? ~ variable_date }` -/
+
+def yearKids : Option Nat → List T
+  | none => []
+  | some y => [yearTree y]
+
+def easterTree : T := .node .variable_date ['e', 'a', 's', 't', 'e', 'r'] []
+
+def dateTree : DateSpec → T
+  | .fixed y m d => .node .date_from (Print.date (.fixed y m d)) (yearKids y ++ [monthTree m, daynumTree d])
+  | .easter y => .node .date_from (Print.date (.easter y)) (yearKids y ++ [easterTree])
+
+@[simp] theorem dateTree_rule (s : DateSpec) : (dateTree s).rule = .date_from := by
+  cases s <;> rfl
+
+/-- `year` does not match a month name -/
+theorem run_year_none_month (q : Bool) (m : Nat) (rest : List Char) :
+    run g_year q (Print.monthStr m ++ rest) = none := by
+  obtain ⟨c, cs, e, hc⟩ := monthStr_head m
+  rw [e]
+  apply run_year_none
+  intro c' r' h
+  cases h
+  rcases hc with h | h | h | h | h | h | h | h <;> subst h <;> decide
+
+theorem run_date_from (s : DateSpec) (hs : okDate s = true) (rest : List Char) (hf : DayFollow rest) :
+    run g_date_from false (Print.date s ++ rest) = some ⟨[dateTree s], Print.date s, rest⟩ := by
+  cases s with
+  | fixed y m d =>
+    simp only [okDate, Bool.and_eq_true, decide_eq_true_eq] at hs
+    obtain ⟨hy, hm1, hm2, hd1, hd2⟩ := hs
+    have hmon := run_month m ⟨hm1, hm2⟩
+    have hday := run_daynum false d ⟨hd1, hd2⟩ rest hf
+    cases y with
+    | none =>
+      have hyn := run_year_none_month false m
+      simp only [Print.date, dateTree, yearKids, List.nil_append, List.append_assoc, List.cons_append]
+      simp [g_date_from, peg, hyn, hmon, hday]
+    | some y =>
+      simp only [okYearOpt, decide_eq_true_eq] at hy
+      have hyr := run_year false y hy
+      simp only [Print.date, dateTree, yearKids, List.nil_append, List.append_assoc, List.cons_append]
+      simp [g_date_from, peg, hyr, hmon, hday]
+  | easter y =>
+    have hmn : ∀ r, run g_month false ('e' :: r) = none := fun r =>
+      run_month_none_head false 'e' r (by simp [MonthLetter])
+    cases y with
+    | none =>
+      have hyn : ∀ r, run g_year false ('e' :: r) = none := fun r =>
+        run_year_none false _ (by intro c r' h; cases h; decide)
+      simp only [Print.date, dateTree, yearKids, easterTree, List.nil_append]
+      simp [g_date_from, g_variable_date, peg, Print.str, hyn, hmn]
+    | some y =>
+      simp only [okDate, okYearOpt, decide_eq_true_eq] at hs
+      have hyr := run_year false y hs
+      simp only [Print.date, dateTree, yearKids, easterTree, List.nil_append, List.append_assoc,
+        List.cons_append]
+      simp [g_date_from, g_variable_date, peg, Print.str, hyr, hmn]
+
+theorem build_date_from (s : DateSpec) (hs : okDate s = true) : buildDateFrom (dateTree s) = .ok s := by
+  cases s with
+  | fixed y m d =>
+    simp only [okDate, Bool.and_eq_true, decide_eq_true_eq] at hs
+    obtain ⟨hy, hm1, hm2, hd1, hd2⟩ := hs
+    cases y with
+    | none =>
+      simp [buildDateFrom, dateTree, yearKids, assertRule, build_month m ⟨hm1, hm2⟩,
+        build_daynum d ⟨hd1, hd2⟩, bind, Except.bind]
+    | some y =>
+      simp only [okYearOpt, decide_eq_true_eq] at hy
+      simp [buildDateFrom, dateTree, yearKids, assertRule, build_year y hy.2, build_month m ⟨hm1, hm2⟩,
+        build_daynum d ⟨hd1, hd2⟩, bind, Except.bind]
+  | easter y =>
+    cases y with
+    | none => simp [buildDateFrom, dateTree, yearKids, easterTree, assertRule, bind, Except.bind]
+    | some y =>
+      simp only [okDate, okYearOpt, decide_eq_true_eq] at hs
+      simp [buildDateFrom, dateTree, yearKids, easterTree, assertRule, build_year y hs.2, bind,
+        Except.bind]
+
+/-- first character of a printed date or month range: a year digit, a month letter, `e` of easter -/
+def MdStartChar (c : Char) : Prop := ('1' ≤ c ∧ c ≤ '9') ∨ MonthLetter c ∨ c = 'e'
+
+theorem natStr_year_head (y : Nat) (hy : 1900 ≤ y ∧ y ≤ 9999) :
+    ∃ c cs, Print.natStr y = c :: cs ∧ '1' ≤ c ∧ c ≤ '9' := natStr_head y (by omega)
+
+theorem date_head (s : DateSpec) (hs : okDate s = true) :
+    ∃ c cs, Print.date s = c :: cs ∧ MdStartChar c := by
+  cases s with
+  | fixed y m d =>
+    cases y with
+    | none =>
+      obtain ⟨c, cs, e, hc⟩ := monthStr_head m
+      exact ⟨c, _, by simp only [Print.date, List.nil_append, e]; rfl, Or.inr (Or.inl hc)⟩
+    | some y =>
+      simp only [okDate, okYearOpt, Bool.and_eq_true, decide_eq_true_eq] at hs
+      obtain ⟨c, cs, e, hc⟩ := natStr_year_head y hs.1
+      exact ⟨c, _, by simp only [Print.date, e]; rfl, Or.inl hc⟩
+  | easter y =>
+    cases y with
+    | none => exact ⟨'e', ['a', 's', 't', 'e', 'r'], by simp [Print.date, Print.str], Or.inr (Or.inr rfl)⟩
+    | some y =>
+      simp only [okDate, okYearOpt, decide_eq_true_eq] at hs
+      obtain ⟨c, cs, e, hc⟩ := natStr_year_head y hs
+      exact ⟨c, _, by simp only [Print.date, e]; rfl, Or.inl hc⟩
+
+/-- nothing that `date_from` accepts starts here -/
+theorem run_date_from_none_head (inp : List Char) (h : ∀ c r, inp = c :: r → ¬ MdStartChar c) :
+    run g_date_from false inp = none := by
+  have hy : run g_year false inp = none := by
+    apply run_year_none
+    intro c r e hc
+    exact h c r e (Or.inl hc)
+  cases inp with
+  | nil =>
+    simp [g_date_from, g_variable_date, peg, hy, run_month_none_nil]
+  | cons c r =>
+    have hc := h c r rfl
+    simp only [MdStartChar, not_or] at hc
+    have hm := run_month_none_head false c r hc.2.1
+    have he : 'e' ≠ c := Ne.symm hc.2.2
+    simp [g_date_from, g_variable_date, peg, hy, hm, he]
+
+/-- the optional year in front of a month range (`2020Jan`) -/
+def yearStr : Option Nat → List Char
+  | some y => Print.natStr y
+  | none => []
+
+/-- `date_from` on a printed month (with or without year) that is NOT followed by a day number -/
+theorem run_date_from_none_month (y : Option Nat) (hy : okYearOpt y = true) (m : Nat)
+    (hm : 1 ≤ m ∧ m ≤ 12) (X : List Char) (h1 : run g_daynum false X = none)
+    (h2 : ∀ r, X = ' ' :: r → run g_daynum false r = none) :
+    run g_date_from false (yearStr y ++ Print.monthStr m ++ X)
+      = none := by
+  have hmon := run_month m hm
+  -- `" "? ~ daynum` fails on `X`
+  have hsd : run (.seq (.opt (.str [' '])) g_daynum : G) false X = none := by
+    cases X with
+    | nil => simp [peg, h1]
+    | cons c r =>
+      by_cases hc : c = ' '
+      · subst hc; simp [peg, h2 r rfl]
+      · simp [peg, Ne.symm hc, h1]
+  -- `variable_date` fails on a month name
+  have hvd : run g_variable_date false (Print.monthStr m ++ X) = none := by
+    obtain ⟨c, cs, e, hc⟩ := monthStr_head m
+    have : 'e' ≠ c := by
+      rcases hc with h | h | h | h | h | h | h | h <;> subst h <;> decide
+    rw [e]; simp [g_variable_date, peg, this]
+  -- the optional year
+  have hpre : ∃ yk, run (.opt (.seq g_year (.opt (.str [' ']))) : G) false
+      (yearStr y ++ (Print.monthStr m ++ X))
+      = some ⟨yk, yearStr y, Print.monthStr m ++ X⟩ := by
+    cases y with
+    | none =>
+      refine ⟨[], ?_⟩
+      simp [yearStr, peg, run_year_none_month false m]
+    | some y =>
+      simp only [okYearOpt, decide_eq_true_eq] at hy
+      obtain ⟨c, cs, e, hc⟩ := monthStr_head m
+      have : ' ' ≠ c := by
+        rcases hc with h | h | h | h | h | h | h | h <;> subst h <;> decide
+      refine ⟨[yearTree y], ?_⟩
+      simp only [yearStr, run_opt, run_seq, run_year false y hy, if_false, Bool.false_eq_true]
+      rw [e]
+      simp [peg, this]
+  obtain ⟨yk, hpre⟩ := hpre
+  have ha1 := seq_none_right hpre (seq_none_right (hmon X) hsd)
+  have ha2 := seq_none_right hpre hvd
+  rw [List.append_assoc]
+  simp only [g_date_from, run_rule, run_alt, Bool.or_self, ha1, ha2]
+
+/-! ### `date_offset = { plus_or_minus ~ wday ~ day_offset | plus_or_minus ~ wday | day_offset }` -/
+
+def wdKids : WdayOffset → List T
+  | .none => []
+  | .next w => [pmTree true, wdTree w]
+  | .prev w => [pmTree false, wdTree w]
+
+def offTree (o : DateOffset) : T :=
+  .node .date_offset (Print.dateOffset o)
+    (wdKids o.wday ++ (if o.days ≠ 0 then [dayOffTree o.days] else []))
+
+@[simp] theorem offTree_rule (o : DateOffset) : (offTree o).rule = .date_offset := rfl
+
+/-- the pairs of an optional date offset: the neutral offset prints nothing -/
+def offKids (o : DateOffset) : List T := if o = noOffset then [] else [offTree o]
+
+theorem daysOffset_head (off : Int) (h0 : off ≠ 0) : ∃ cs, Print.daysOffset off = ' ' :: cs := by
+  rw [daysOffset_eq off h0]
+  exact ⟨_, rfl⟩
+
+theorem run_date_offset (o : DateOffset) (ho : okDateOffset o = true) (hne : o ≠ noOffset)
+    (inp : List Char) (H1 : NoDayOffset inp) (H2 : ∀ r, inp ≠ 's' :: r) :
+    run g_date_offset false (Print.dateOffset o ++ inp) = some ⟨[offTree o], Print.dateOffset o, inp⟩ := by
+  obtain ⟨wd, days⟩ := o
+  simp only [okDateOffset, Bool.and_eq_true, decide_eq_true_eq] at ho
+  obtain ⟨hw, hb⟩ := ho
+  have hdn := run_day_offset_none false inp H1
+  cases wd with
+  | none =>
+    have h0 : days ≠ 0 := by
+      intro h; subst h; exact hne rfl
+    obtain ⟨cs, e⟩ := daysOffset_head days h0
+    have hpm : run g_plus_or_minus false (Print.daysOffset days ++ inp) = none := by
+      rw [e]
+      exact run_pm_none false _ (fun _ h => by cases h) (fun _ h => by cases h)
+    have hdo := run_day_offset days h0 inp H2
+    simp only [Print.dateOffset, Print.wdayOffset, offTree, wdKids, List.nil_append, h0, ne_eq,
+      not_false_eq_true, if_true]
+    simp only [g_date_offset, run_rule, run_alt, run_seq, Bool.or_self, hpm, hdo]
+    simp
+  | next w =>
+    simp only [okWdayOffset, decide_eq_true_eq] at hw
+    have hwd := run_wd w hw
+    by_cases h0 : days = 0
+    · subst h0
+      simp only [Print.dateOffset, Print.wdayOffset, Print.daysOffset, offTree, wdKids, ne_eq, not_true,
+        if_false, if_true, List.append_nil, List.cons_append]
+      simp only [g_date_offset, run_rule, run_alt, run_seq, R.append, Bool.or_self, run_pm_plus, hwd, hdn]
+      simp
+    · have hdo := run_day_offset days h0 inp H2
+      simp only [Print.dateOffset, Print.wdayOffset, offTree, wdKids, ne_eq, h0, not_false_eq_true,
+        if_true, List.cons_append, List.append_assoc]
+      simp only [g_date_offset, run_rule, run_alt, run_seq, R.append, Bool.or_self, run_pm_plus, hwd, hdo]
+      simp
+  | prev w =>
+    simp only [okWdayOffset, decide_eq_true_eq] at hw
+    have hwd := run_wd w hw
+    by_cases h0 : days = 0
+    · subst h0
+      simp only [Print.dateOffset, Print.wdayOffset, Print.daysOffset, offTree, wdKids, ne_eq, not_true,
+        if_false, if_true, List.append_nil, List.cons_append]
+      simp only [g_date_offset, run_rule, run_alt, run_seq, R.append, Bool.or_self, run_pm_minus, hwd, hdn]
+      simp
+    · have hdo := run_day_offset days h0 inp H2
+      simp only [Print.dateOffset, Print.wdayOffset, offTree, wdKids, ne_eq, h0, not_false_eq_true,
+        if_true, List.cons_append, List.append_assoc]
+      simp only [g_date_offset, run_rule, run_alt, run_seq, R.append, Bool.or_self, run_pm_minus, hwd, hdo]
+      simp
+
+/-- `date_offset` fails: no sign-and-weekday, no day offset -/
+theorem run_date_offset_none (inp : List Char) (H1 : NoDayOffset inp)
+    (H3 : run (.seq g_plus_or_minus g_wday) false inp = none) : run g_date_offset false inp = none := by
+  have hdn := run_day_offset_none false inp H1
+  have ha1 : run (.seq (.seq g_plus_or_minus g_wday) g_day_offset) false inp = none := seq_none_left H3
+  simp only [g_date_offset, run_rule, run_alt, Bool.or_self, ha1, H3, hdn]
+
+/-- the optional date offset, present or not -/
+theorem run_opt_date_offset (o : DateOffset) (ho : okDateOffset o = true) (inp : List Char)
+    (H1 : NoDayOffset inp) (H2 : ∀ r, inp ≠ 's' :: r)
+    (H3 : run (.seq g_plus_or_minus g_wday) false inp = none) :
+    run (.opt g_date_offset) false (Print.dateOffset o ++ inp) = some ⟨offKids o, Print.dateOffset o, inp⟩ := by
+  unfold offKids
+  by_cases h : o = noOffset
+  · subst h
+    have e : Print.dateOffset noOffset = [] := by
+      simp [Print.dateOffset, noOffset, Print.wdayOffset, Print.daysOffset]
+    rw [e]
+    simp only [List.nil_append, if_true]
+    exact opt_none (run_date_offset_none inp H1 H3)
+  · simp only [h, if_false]
+    exact opt_some (run_date_offset o ho h inp H1 H2)
+
+theorem pm_wd_none_of_pm (inp : List Char) (h1 : ∀ r, inp ≠ '+' :: r) (h2 : ∀ r, inp ≠ '-' :: r) :
+    run (.seq g_plus_or_minus g_wday) false inp = none :=
+  seq_none_left (run_pm_none false inp h1 h2)
+
+theorem run_wd_none_date (e : DateSpec) (he : okDate e = true) (X : List Char) :
+    run g_wday false (Print.date e ++ X) = none := by
+  have hdig : ∀ y, 1900 ≤ y ∧ y ≤ 9999 → ∀ Z, run g_wday false (Print.natStr y ++ Z) = none := by
+    intro y hy Z
+    obtain ⟨c, cs, e, hc⟩ := natStr_year_head y hy
+    rw [e]
+    apply run_wd_none_head
+    refine ⟨?_, ?_, ?_, ?_, ?_⟩ <;> (intro h; subst h; exact absurd hc.2 (by decide))
+  cases e with
+  | fixed y m d =>
+    cases y with
+    | none =>
+      simp only [Print.date, List.nil_append, List.append_assoc]
+      exact run_wd_none_month false m _
+    | some y =>
+      simp only [okDate, okYearOpt, Bool.and_eq_true, decide_eq_true_eq] at he
+      simp only [Print.date, List.append_assoc]
+      exact hdig y he.1 _
+  | easter y =>
+    cases y with
+    | none =>
+      simp only [Print.date, List.nil_append, Print.str]
+      exact run_wd_none_head false 'e' _ (by decide)
+    | some y =>
+      simp only [okDate, okYearOpt, decide_eq_true_eq] at he
+      simp only [Print.date, List.append_assoc]
+      exact hdig y he _
+
+/-- `-` followed by a printed date is not a date offset -/
+theorem pm_wd_none_dash_date (e : DateSpec) (he : okDate e = true) (X : List Char) :
+    run (.seq g_plus_or_minus g_wday) false ('-' :: (Print.date e ++ X)) = none :=
+  seq_none_right (run_pm_minus _) (run_wd_none_date e he X)
+
+theorem build_date_offset (o : DateOffset) (ho : okDateOffset o = true) :
+    buildDateOffset (offTree o) = .ok o := by
+  obtain ⟨wd, days⟩ := o
+  simp only [okDateOffset, Bool.and_eq_true, decide_eq_true_eq] at ho
+  obtain ⟨hw, hb⟩ := ho
+  cases wd with
+  | none =>
+    by_cases h0 : days = 0
+    · subst h0
+      simp [buildDateOffset, offTree, wdKids, assertRule, bind, Except.bind]
+    · simp [buildDateOffset, offTree, wdKids, assertRule, h0, build_day_offset days hb, bind,
+        Except.bind]
+  | next w =>
+    simp only [okWdayOffset, decide_eq_true_eq] at hw
+    by_cases h0 : days = 0
+    · subst h0
+      simp [buildDateOffset, offTree, wdKids, assertRule, build_pm_plus, build_wd w hw, bind,
+        Except.bind]
+    · simp [buildDateOffset, offTree, wdKids, assertRule, h0, build_pm_plus, build_wd w hw,
+        build_day_offset days hb, bind, Except.bind]
+  | prev w =>
+    simp only [okWdayOffset, decide_eq_true_eq] at hw
+    by_cases h0 : days = 0
+    · subst h0
+      simp [buildDateOffset, offTree, wdKids, assertRule, build_pm_minus, build_wd w hw, bind,
+        Except.bind]
+    · simp [buildDateOffset, offTree, wdKids, assertRule, h0, build_pm_minus, build_wd w hw,
+        build_day_offset days hb, bind, Except.bind]
+
+/-- a printed date offset is empty or starts with `+`, `-` or a space: a day number may precede it -/
+theorem dateOffset_dayFollow (o : DateOffset) (X : List Char) (hX : DayFollow X) :
+    DayFollow (Print.dateOffset o ++ X) := by
+  obtain ⟨wd, days⟩ := o
+  cases wd with
+  | none =>
+    by_cases h0 : days = 0
+    · subst h0
+      simpa [Print.dateOffset, Print.wdayOffset, Print.daysOffset] using hX
+    · obtain ⟨cs, e⟩ := daysOffset_head days h0
+      simp only [Print.dateOffset, Print.wdayOffset, List.nil_append, e, List.cons_append]
+      exact ⟨fun c r h => by cases h; decide, fun r h => by cases h⟩
+  | next w =>
+    simp only [Print.dateOffset, Print.wdayOffset, List.cons_append]
+    exact ⟨fun c r h => by cases h; decide, fun r h => by cases h⟩
+  | prev w =>
+    simp only [Print.dateOffset, Print.wdayOffset, List.cons_append]
+    exact ⟨fun c r h => by cases h; decide, fun r h => by cases h⟩
+
+/-! ### `date_to = { date_from | daynum }` -/
+
+def dateToTree (e : DateSpec) : T := .node .date_to (Print.date e) [dateTree e]
+
+@[simp] theorem dateToTree_rule (e : DateSpec) : (dateToTree e).rule = .date_to := rfl
+
+theorem run_date_to (e : DateSpec) (he : okDate e = true) (rest : List Char) (hf : DayFollow rest) :
+    run g_date_to false (Print.date e ++ rest) = some ⟨[dateToTree e], Print.date e, rest⟩ := by
+  simp only [g_date_to, run_rule, run_alt, Bool.or_self, run_date_from e he rest hf]
+  simp [dateToTree]
+
+theorem build_date_to (e : DateSpec) (he : okDate e = true) (frm : DateSpec) :
+    buildDateTo (dateToTree e) frm = .ok e := by
+  simp [buildDateTo, dateToTree, assertRule, build_date_from e he, bind, Except.bind]
 
 end OH.Proofs.Syn.Wide
